@@ -470,8 +470,10 @@ class Check:
                   violations=len(new))
         if self.notes:
             ev["notes"] = self.notes
-        os.makedirs(EVID, exist_ok=True)
-        with open(os.path.join(EVID, self.pid + ".json"), "w") as f:
+        # checks beyond the listed properties (ids X..) keep their evidence apart
+        evdir = EVID if re.match(r"^C\d{2,3}$", self.pid) else os.path.join(EVID, "extra")
+        os.makedirs(evdir, exist_ok=True)
+        with open(os.path.join(evdir, self.pid + ".json"), "w") as f:
             json.dump(ev, f, indent=1, sort_keys=True)
         print("%s %s tier=%s seed=%d states=%d transitions=%d impl_traces=%d wall=%.1fs" % (
             "FAIL" if rc else "OK", self.pid, self.tier, seed(), cov["states"], cov["transitions"],
